@@ -1,10 +1,78 @@
 /-
-  Hand-written models of `statrs::function` items the translator does not cover.
-  (Names mirror the generated ones under `FHand.`; referenced by Gen/SFFloat.lean.)
+  Hand-written models of `statrs::function` items the translator does not cover
+  (labelled breaks, uninitialised `let`).  Names mirror the generated ones under
+  `FHand.`; referenced by Gen/SFFloat.lean.  Pinned to the code bit-for-bit by the
+  correspondence check (fn-id `crate::function::beta::inv_beta_reg`).
 -/
 import Statrs.Inst.Float
-import Statrs.Gen.Types
+import Statrs.Gen.F_beta
 namespace Statrs.Gen.FHand
-open Statrs
+open Statrs Statrs.Gen
 
+namespace F.beta
+
+/-- innermost `loop` of `inv_beta_reg`: shrink `g` until the step is acceptable.
+    returns (g, sq, pnext) -/
+partial def invInner (p q prev : Float) (g : Float) (fuel : Nat) : Float × Float × Float :=
+  let adj := g * q
+  let sq := adj * adj
+  let pnext := p - adj
+  if sq < prev && (0.0 ≤ pnext && pnext ≤ 1.0) then (g, sq, pnext)
+  else match fuel with
+    | 0 => (g, sq, fNaN)
+    | fuel + 1 => invInner p q prev (g / 3.0) fuel
+
+/-- middle `loop`: returns (sq, pnext, brokeOuter) -/
+partial def invMiddle (p q prev acu : Float) (g : Float) (fuel : Nat) : Float × Float × Bool :=
+  let (g, sq, pnext) := invInner p q prev g 100000
+  if prev ≤ acu || q * q ≤ acu then (sq, pnext, true)
+  else if pnext != 0.0 && pnext != 1.0 then (sq, pnext, false)
+  else match fuel with
+    | 0 => (sq, fNaN, true)
+    | fuel + 1 => invMiddle p q prev acu (g / 3.0) fuel
+
+partial def invOuter (a b x lnBeta acu fpu : Float) (p qprev sq prev : Float) (fuel : Nat) : Float :=
+  let q := F.beta.beta_reg (α := Float) a b p
+  let q := (q - x) * Float.exp (lnBeta + (1.0 - a) * Float.log p + (1.0 - b) * Float.log (1.0 - p))
+  let prev := if q * qprev ≤ 0.0 then (if sq > fpu then sq else fpu) else prev
+  let (sq, pnext, brk) := invMiddle p q prev acu 1.0 100000
+  if brk then pnext
+  else if pnext == p then p
+  else match fuel with
+    | 0 => fNaN
+    | fuel + 1 => invOuter a b x lnBeta acu fpu pnext q sq prev fuel
+
+def inv_beta_reg (a b x : Float) : Float :=
+  let lnBeta := F.beta.ln_beta (α := Float) a b
+  let fpu : Float := 1e-30   -- FPU = 10^SAE
+  if x == 0.0 then 0.0
+  else if x == 1.0 then 1.0
+  else
+    let flip := 0.5 < x
+    let (a, b, x) := if flip then (b, a, 1.0 - x) else (a, b, x)
+    let p := Float.sqrt (-(Float.log (x * x)))
+    let q := p - (2.30753 + 0.27061 * p) / (1.0 + (0.99229 + 0.04481 * p) * p)
+    let p :=
+      if 1.0 < a && 1.0 < b then
+        let r := (q * q - 3.0) / 6.0
+        let s := 1.0 / (2.0 * a - 1.0)
+        let t := 1.0 / (2.0 * b - 1.0)
+        let h := 2.0 / (s + t)
+        let w := q * Float.sqrt (h + r) / h - (t - s) * (r + 5.0 / 6.0 - 2.0 / (3.0 * h))
+        a / (a + b * Float.exp (2.0 * w))
+      else
+        let t := 1.0 / (9.0 * b)
+        let t := 2.0 * b * Float.pow (1.0 - t + q * Float.sqrt t) 3.0
+        if t ≤ 0.0 then 1.0 - Float.exp ((Float.log ((1.0 - x) * b) + lnBeta) / b)
+        else
+          let t := 2.0 * (2.0 * a + b - 1.0) / t
+          if t ≤ 1.0 then Float.exp ((Float.log (x * a) + lnBeta) / a)
+          else 1.0 - 2.0 / (t + 1.0)
+    let p := fclamp p 0.0001 0.9999
+    let e : Int := (RFun.toI32 (-5.0 / a / a - 1.0 / Float.pow x 0.2 - 13.0 : Float))
+    let acu := if e > -30 then Float.powi 10.0 e else fpu
+    let p := invOuter a b x lnBeta acu fpu p 0.0 1.0 1.0 100000
+    if flip then 1.0 - p else p
+
+end F.beta
 end Statrs.Gen.FHand
